@@ -709,4 +709,167 @@ theorem liu_PI (nc : Nat) (nbrs : Nat → List Nat) :
   obtain ⟨rep, dep, h⟩ := key (Nat.le_refl _)
   exact ⟨h.spar, h.par⟩
 
+/-! ### Part C: walks whose interior vertices are small -/
+
+/-- `T E k a b`: there is a walk `a … b` in the graph `E` (at least one edge) all of whose interior
+vertices are `< k` -/
+inductive T (E : Nat → Nat → Prop) (k : Nat) : Nat → Nat → Prop
+  | edge {a b : Nat} : E a b → T E k a b
+  | via {a w b : Nat} : T E k a w → w < k → T E k w b → T E k a b
+
+theorem T.mono {E : Nat → Nat → Prop} {k k' : Nat} (hk : k ≤ k') {a b : Nat} (h : T E k a b) :
+    T E k' a b := by
+  induction h with
+  | edge e => exact T.edge e
+  | via _ hw _ ih1 ih2 => exact T.via ih1 (Nat.lt_of_lt_of_le hw hk) ih2
+
+theorem T.map {E E' : Nat → Nat → Prop} (hE : ∀ a b, E a b → E' a b) {k : Nat} {a b : Nat}
+    (h : T E k a b) : T E' k a b := by
+  induction h with
+  | edge e => exact T.edge (hE _ _ e)
+  | via _ hw _ ih1 ih2 => exact T.via ih1 hw ih2
+
+theorem T.symm {E : Nat → Nat → Prop} (hE : ∀ a b, E a b → E b a) {k : Nat} {a b : Nat}
+    (h : T E k a b) : T E k b a := by
+  induction h with
+  | edge e => exact T.edge (hE _ _ e)
+  | via _ hw _ ih1 ih2 => exact T.via ih2 hw ih1
+
+/-- cut a walk at the vertex `v` -/
+theorem T.split {E : Nat → Nat → Prop} {v a b : Nat} (h : T E (v + 1) a b) :
+    T E v a b ∨ ((a = v ∨ T E v a v) ∧ (v = b ∨ T E v v b)) := by
+  induction h with
+  | edge e => exact Or.inl (T.edge e)
+  | via _ hw _ ih1 ih2 =>
+    rename_i a w b _ _
+    by_cases e : w = v
+    · subst e
+      have A : a = w ∨ T E w a w := by
+        rcases ih1 with h | ⟨h, _⟩
+        · exact Or.inr h
+        · exact h
+      have B : w = b ∨ T E w w b := by
+        rcases ih2 with h | ⟨_, h⟩
+        · exact Or.inr h
+        · exact h
+      exact Or.inr ⟨A, B⟩
+    · have hwv : w < v := by omega
+      rcases ih1 with h1 | ⟨A, h1⟩
+      · rcases ih2 with h2 | ⟨h2, B⟩
+        · exact Or.inl (T.via h1 hwv h2)
+        · rcases h2 with h2 | h2
+          · exact absurd h2 e
+          · exact Or.inr ⟨Or.inr (T.via h1 hwv h2), B⟩
+      · rcases h1 with h1 | h1
+        · exact absurd h1.symm e
+        · rcases ih2 with h2 | ⟨_, B⟩
+          · exact Or.inr ⟨A, Or.inr (T.via h1 hwv h2)⟩
+          · exact Or.inr ⟨A, B⟩
+
+/-- if `v` is the largest vertex of its component among the vertices `< c`, a walk into that component
+with interior `< c` has its interior `≤ v` -/
+theorem T.shrink {E : Nat → Nat → Prop} (hE : ∀ a b, E a b → E b a) {c v : Nat}
+    (hmax : ∀ j, j < c → T E c v j → j ≤ v) {a b : Nat} (h : T E c a b) :
+    (b = v ∨ T E c v b) → b < c → T E (v + 1) a b := by
+  induction h with
+  | edge e => intro _ _; exact T.edge e
+  | via _ hw h2 ih1 ih2 =>
+    rename_i a w b _
+    intro hb hbc
+    have hvw : T E c v w := by
+      rcases hb with hb | hb
+      · rw [← hb]; exact T.symm hE h2
+      · exact T.via hb hbc (T.symm hE h2)
+    have hwv : w ≤ v := hmax w hw hvw
+    exact T.via (ih1 (Or.inr hvw) hw) (by omega) (ih2 hb hbc)
+
+/-- `x` is the least `i` in `(v, n)` with `P i`, or `n` if there is none -/
+def Least (P : Nat → Prop) (n v x : Nat) : Prop :=
+  (x = n ∧ ∀ i, v < i → i < n → ¬ P i) ∨ (v < x ∧ x < n ∧ P x ∧ ∀ i, v < i → i < x → ¬ P i)
+
+theorem Least.unique {P P' : Nat → Prop} {n v x y : Nat} (hP : ∀ i, v < i → i < n → (P i ↔ P' i))
+    (hx : Least P n v x) (hy : Least P' n v y) : x = y := by
+  rcases hx with ⟨ex, hx⟩ | ⟨x1, x2, x3, x4⟩
+  · rcases hy with ⟨ey, _⟩ | ⟨y1, y2, y3, _⟩
+    · rw [ex, ey]
+    · exact absurd ((hP y y1 y2).mpr y3) (hx y y1 y2)
+  · rcases hy with ⟨_, hy⟩ | ⟨y1, y2, y3, y4⟩
+    · exact absurd ((hP x x1 x2).mp x3) (hy x x1 x2)
+    · rcases Nat.lt_trichotomy x y with h | h | h
+      · exact absurd ((hP x x1 x2).mp x3) (y4 x x1 h)
+      · exact h
+      · exact absurd ((hP y y1 y2).mpr y3) (x4 y y1 h)
+
+/-- the graph Liu's algorithm works on: `a — b` when the smaller is an entry of the larger's list -/
+def SE (nbrs : Nat → List Nat) (nc : Nat) (a b : Nat) : Prop :=
+  (b < a ∧ a < nc ∧ b ∈ nbrs a) ∨ (a < b ∧ b < nc ∧ a ∈ nbrs b)
+
+theorem SE.symm {nbrs : Nat → List Nat} {nc : Nat} (a b : Nat) (h : SE nbrs nc a b) : SE nbrs nc b a := by
+  rcases h with h | h
+  · exact Or.inr h
+  · exact Or.inl h
+
+theorem T_of_Cls {nbrs : Nat → List Nat} {nc k : Nat} (hk : k ≤ nc) {a b : Nat}
+    (h : Cls nbrs k [] a b) : a = b ∨ (a < k ∧ b < k ∧ T (SE nbrs nc) k a b) := by
+  induction h with
+  | rel hr =>
+    obtain ⟨h1, h2 | h2⟩ := hr
+    · exact Or.inr ⟨h2.1, by omega, T.edge (Or.inl ⟨h1, by omega, h2.2⟩)⟩
+    · simp at h2
+  | refl a => exact Or.inl rfl
+  | symm _ ih =>
+    rcases ih with ih | ⟨h1, h2, h3⟩
+    · exact Or.inl ih.symm
+    · exact Or.inr ⟨h2, h1, T.symm SE.symm h3⟩
+  | trans _ _ ih1 ih2 =>
+    rcases ih1 with rfl | ⟨h1, h2, h3⟩
+    · exact ih2
+    · rcases ih2 with rfl | ⟨g1, g2, g3⟩
+      · exact Or.inr ⟨h1, h2, h3⟩
+      · exact Or.inr ⟨h1, g2, T.via h3 h2 g3⟩
+
+theorem Cls_of_T {nbrs : Nat → List Nat} {nc k : Nat} {a b : Nat} (h : T (SE nbrs nc) k a b) :
+    a < k → b < k → Cls nbrs k [] a b := by
+  induction h with
+  | edge e =>
+    intro ha hb
+    rcases e with e | e
+    · exact Eqv.rel ⟨e.1, Or.inl ⟨ha, e.2.2⟩⟩
+    · exact Eqv.symm (Eqv.rel ⟨e.1, Or.inl ⟨hb, e.2.2⟩⟩)
+  | via _ hw _ ih1 ih2 =>
+    intro ha hb
+    exact Eqv.trans (ih1 ha hw) (ih2 hw hb)
+
+/-- **What Liu's algorithm computes**: `parent[v]` is the least later column that reaches `v` by a walk
+through columns `< v` (in the graph of the lists `nbrs`), or `nc` if there is none. -/
+theorem liu_least (nc : Nat) (nbrs : Nat → List Nat) :
+    (liu nc nbrs).size = nc ∧
+    ∀ v, v < nc → Least (fun i => T (SE nbrs nc) v i v) nc v ((liu nc nbrs).getD v 0) := by
+  obtain ⟨hs, hpi⟩ := liu_PI nc nbrs
+  refine ⟨hs, fun v hv => ?_⟩
+  -- nothing between `v` and a column `p ≤ nc` where `v` is still a class maximum reaches `v`
+  have hnone : ∀ p, p ≤ nc → v < p → (∀ j, Cls nbrs p [] v j → j ≤ v) →
+      ∀ i, v < i → i < p → ¬ T (SE nbrs nc) v i v := by
+    intro p hp hvp hmax i hvi hip ht
+    have h1 : T (SE nbrs nc) p v i := T.symm SE.symm (T.mono (Nat.le_of_lt hvp) ht)
+    have := hmax i (Cls_of_T h1 hvp hip)
+    omega
+  rcases hpi v hv with ⟨h1, h2⟩ | ⟨h1, h2, h3, u, hu1, hu2, hu3⟩
+  · exact Or.inl ⟨h1, hnone nc (Nat.le_refl _) hv h2⟩
+  · unfold Least
+    generalize (liu nc nbrs).getD v 0 = p at h1 h2 h3 hu1 hu2 hu3 ⊢
+    refine Or.inr ⟨h1, h2, ?_, hnone _ (Nat.le_of_lt h2) h1 h3⟩
+    have hedge : SE nbrs nc p u := Or.inl ⟨hu1, h2, hu2⟩
+    have hpv : T (SE nbrs nc) p p v := by
+      rcases T_of_Cls (Nat.le_of_lt h2) hu3 with e | ⟨_, _, e⟩
+      · rw [← e]; exact T.edge hedge
+      · exact T.via (T.edge hedge) hu1 e
+    have hmax : ∀ j, j < p → T (SE nbrs nc) p v j → j ≤ v :=
+      fun j hj ht => h3 j (Cls_of_T ht h1 hj)
+    have := T.shrink SE.symm hmax hpv (Or.inl rfl) h1
+    rcases T.split this with e | ⟨e | e, _⟩
+    · exact e
+    · omega
+    · exact e
+
 end Slu.Order
